@@ -25,6 +25,7 @@ SMOKE = [
     ('RelPeriodMech', 'MC_RelPeriod_prefix.cfg', 'MeetsContract'),
     ('AddMod', 'MC_AddMod_prefix.cfg', ('InBounds', 'TextIsSlice')),
     ('AddMod', 'MC_AddMod_adjacent.cfg', 'OnlyAdjacent'),
+    ('DigitalValue', 'MC_DigitalValue_prefix.cfg', 'MeetsLiteral'),
     ('RelPeriodMech', 'MC_RelPeriod_weekend.cfg', 'WeekendIsoYear'),
 ]
 
